@@ -341,25 +341,13 @@ class GroupingService:
                         seen_values.add(current_value)
             else:
                 # For subsequent variables, check contiguity within parent groups
-                # Create a composite key from all grouping variables up to this level
-                # Handle null values by first converting to string with null handling
-                df_with_key = df.with_columns(
-                    [
-                        pl.col(col)
-                        .cast(pl.Utf8)
-                        .fill_null("__NULL__")
-                        .alias(f"_str_{col}")
-                        for col in group_cols
-                    ]
-                )
-
-                # Create the group key from the string columns
-                str_cols = [f"_str_{col}" for col in group_cols]
-                df_with_key = df_with_key.with_columns(
-                    pl.concat_str(str_cols, separator="|").alias("_group_key")
-                )
-
-                group_keys = df_with_key["_group_key"].to_list()
+                # Create a composite key from all grouping variables up to this level.
+                # Row tuples keep the values of different columns apart (a joined
+                # string makes ("x", "y|z") and ("x|y", "z") collide) and keep a
+                # null distinct from any text.
+                group_keys = df.select(
+                    [pl.col(col).cast(pl.Utf8) for col in group_cols]
+                ).rows()
                 current_key = group_keys[0]
                 seen_keys = {current_key}
 
